@@ -4,6 +4,7 @@ import (
 	"fmt"
 	"sync"
 
+	"github.com/andydunstall/piko/server/config"
 	"verifharness/internal/e4"
 	"verifharness/internal/evid"
 )
@@ -23,6 +24,20 @@ type c06Case struct {
 	// Conn: a Connection header sent by the client naming a header as
 	// hop-by-hop (the HTTP reverse proxy strips the headers named there)
 	Conn string `json:"connection_header,omitempty"`
+	// Log: access-log configuration of the proxies ("" = disabled, no filters)
+	Log string `json:"access_log,omitempty"`
+}
+
+// c06LogConfigs: access-log settings filter headers for logging; they must
+// not change what the routes see.
+var c06LogConfigs = map[string]func(pc *config.ProxyConfig){
+	"disabled+allow-list":          func(pc *config.ProxyConfig) { pc.AccessLog.RequestHeaders.AllowList = []string{"user-agent"} },
+	"disabled+block-forward-marker": func(pc *config.ProxyConfig) { pc.AccessLog.RequestHeaders.BlockList = []string{"x-piko-forward", "x-piko-endpoint"} },
+	"enabled+allow-list": func(pc *config.ProxyConfig) {
+		pc.AccessLog.Disable = false
+		pc.AccessLog.RequestHeaders.AllowList = []string{"user-agent"}
+		pc.AccessLog.ResponseHeaders.AllowList = []string{"content-type"}
+	},
 }
 
 func (c c06Case) place(i int) int {
@@ -39,8 +54,12 @@ type c06World struct {
 	ups []*e4.StampUpstream
 }
 
-func newC06World(n int) *c06World {
-	w := &c06World{n: n, cl: e4.NewCompCluster(n, e4.DefaultProxyConfig(), nil)}
+func newC06World(n int, logCfg string) *c06World {
+	pc := e4.DefaultProxyConfig()
+	if f := c06LogConfigs[logCfg]; f != nil {
+		f(&pc)
+	}
+	w := &c06World{n: n, cl: e4.NewCompCluster(n, pc, nil)}
 	for i := 0; i < n; i++ {
 		w.ups = append(w.ups, &e4.StampUpstream{Endpoint: "e1", Name: fmt.Sprintf("u%d", i), Node: fmt.Sprintf("n%d", i)})
 	}
@@ -208,6 +227,11 @@ func init() {
 								if m == "header" && n == 3 {
 									cases = append(cases, c06Case{N: n, Beliefs: b, Place: p, Entry: e, Mode: m, Forward: f, Conn: "x-piko-forward"})
 								}
+								if f == "" && n == 3 {
+									for lc := range c06LogConfigs {
+										cases = append(cases, c06Case{N: n, Beliefs: b, Place: p, Entry: e, Mode: m, Log: lc})
+									}
+								}
 							}
 						}
 					}
@@ -223,7 +247,7 @@ func init() {
 			wg.Add(1)
 			go func() {
 				defer wg.Done()
-				worlds := map[int]*c06World{}
+				worlds := map[string]*c06World{}
 				defer func() {
 					for _, w := range worlds {
 						w.cl.Close()
@@ -233,10 +257,11 @@ func init() {
 					if run.Violations() >= 5 {
 						continue
 					}
-					w := worlds[c.N]
+					wk := fmt.Sprintf("%d/%s", c.N, c.Log)
+					w := worlds[wk]
 					if w == nil {
-						w = newC06World(c.N)
-						worlds[c.N] = w
+						w = newC06World(c.N, c.Log)
+						worlds[wk] = w
 					}
 					sig, msg := w.run(c)
 					for r := 0; r < 4 && sig == "request-failed"; r++ {
@@ -266,7 +291,7 @@ func init() {
 		schedPass(run)
 		run.Set("evaluations", evals)
 		run.Set("distinct_nontrivial", nontrivial)
-		run.Set("rule", "cross product of all 2^6 belief matrices (who believes whom to serve E) x all 3^3 placements (per node: no upstream / healthy upstream / upstream that announced go-away) x entry node x {HTTP, TCP} x x-piko-forward header sent by the client {absent, true, false} x {-, Connection: x-piko-forward (HTTP route)} on 3 real proxy servers (thorough: also 2 and 4 nodes); every case is distinct; non-trivial = the entry node has no healthy local upstream (the request must be forwarded once, or refused)")
+		run.Set("rule", "cross product of all 2^6 belief matrices (who believes whom to serve E) x all 3^3 placements (per node: no upstream / healthy upstream / upstream that announced go-away) x entry node x {HTTP, TCP} x x-piko-forward header sent by the client {absent, true, false} x {-, Connection: x-piko-forward (HTTP route)} on 3 real proxy servers (thorough: also 2 and 4 nodes), and x 3 access-log configurations (header allow list / block list naming piko's routing headers, log disabled and enabled); every case is distinct; non-trivial = the entry node has no healthy local upstream (the request must be forwarded once, or refused)")
 		run.Set("exhaustive", true)
 		run.Assume("goroutine scheduling inside net/http, gorilla/websocket and the proxies is free-running; the enumerated dimension is the configuration")
 		fmt.Printf("  C06: cases=%d non-trivial=%d\n", evals, nontrivial)
@@ -279,7 +304,7 @@ func init() {
 			} `json:"replay"`
 		}
 		readJSON(path, &doc)
-		w := newC06World(doc.Replay.Case.N)
+		w := newC06World(doc.Replay.Case.N, doc.Replay.Case.Log)
 		defer w.cl.Close()
 		for i := 0; i < 2; i++ {
 			sig, msg := w.run(doc.Replay.Case)
